@@ -174,6 +174,27 @@ def reset_logging():
     root.setLevel(logging.WARNING)
 
 
+RECURSION_HEADROOM = 500
+
+
+class fixed_recursion_headroom:
+    """Give the code under test the same number of stack frames whatever the depth of the harness above it, so that a
+    RecursionError (runaway include recursion in a broken variant) happens at the same point in a batch child and in a
+    fresh replay interpreter."""
+
+    def __enter__(self):
+        self.old = sys.getrecursionlimit()
+        depth = 0
+        f = sys._getframe()
+        while f is not None:
+            depth += 1
+            f = f.f_back
+        sys.setrecursionlimit(depth + RECURSION_HEADROOM)
+
+    def __exit__(self, *a):
+        sys.setrecursionlimit(self.old)
+
+
 class _State:
     def __init__(self):
         self.depth = 0
@@ -290,7 +311,7 @@ def run_cli(fs, argv, log, inject=None):
     install(fs)
     res = {'outcome': 'ok', 'code': 0, 'msg': '', 'exc': None, 'pass': None, 'inner': None, 'shim_gap': None}
     try:
-        with contextlib.redirect_stdout(out), contextlib.redirect_stderr(err), instrumented(log, inject, st):
+        with contextlib.redirect_stdout(out), contextlib.redirect_stderr(err), instrumented(log, inject, st), fixed_recursion_headroom():
             try:
                 asm.cli_main()
             except SystemExit as e:
@@ -362,7 +383,7 @@ def run_api(fs, call, log, inject=None):
     out = {'ok': False}
     buf = io.StringIO()
     try:
-        with contextlib.redirect_stdout(buf), contextlib.redirect_stderr(buf), instrumented(log, inject, st):
+        with contextlib.redirect_stdout(buf), contextlib.redirect_stderr(buf), instrumented(log, inject, st), fixed_recursion_headroom():
             try:
                 b = asm.assemble(target, **kw)
                 out = {'ok': True, 'bytes': bytes(b).hex(), 'labels': dict(l_obj) if l_obj is not None else None,
